@@ -37,4 +37,15 @@ pub broadcast proof fn lemma_i32_product_fits_i64(x: int, y: int)
     assert(-0x4000_0000_0000_0000 <= x * y <= 0x4000_0000_0000_0000) by(nonlinear_arith)
         requires -0x8000_0000 <= x <= 0x7fff_ffff, -0x8000_0000 <= y <= 0x7fff_ffff;
 }
+// multiplication by +1 / -1 (objective multipliers, negating views)
+pub broadcast proof fn lemma_mul_unit(m: int, v: int)
+    ensures #![trigger m * v] (m == 1 ==> m * v == v) && (m == -1 ==> m * v == -v) && (m == 0 ==> m * v == 0)
+{
+    assert((m == 1 ==> m * v == v) && (m == -1 ==> m * v == -v) && (m == 0 ==> m * v == 0)) by(nonlinear_arith);
+}
+pub broadcast proof fn lemma_mul_unit_r(v: int, m: int)
+    ensures #![trigger v * m] (m == 1 ==> v * m == v) && (m == -1 ==> v * m == -v) && (m == 0 ==> v * m == 0)
+{
+    assert((m == 1 ==> v * m == v) && (m == -1 ==> v * m == -v) && (m == 0 ==> v * m == 0)) by(nonlinear_arith);
+}
 }
